@@ -136,6 +136,7 @@ package engine
 //@ func (m MetavarMatcher) Match(got, d, r) (d1, ok)
 //@   requires m.TypeMatches != nil
 //@   requires typing: compileEnvOK()
+//@   unfold compileEnvOK() == compileEnvFacts()
 //@   requires typing: dmap(d)[mvKey(m.Name)] != nil ==> storedMatcher(dmap(d)[mvKey(m.Name)]) != nil
 //@   unfold MatchOK(boxed(m), got, dmap(d), r) == (kindOK(m.TypeMatches, rtype(got)) && (dmap(d)[mvKey(m.Name)] != nil ==> MatchOK(storedMatcher(dmap(d)[mvKey(m.Name)]), got, emptyMap(), r)))
 //@   unfold MatchD(boxed(m), got, dmap(d), r) == ite(dmap(d)[mvKey(m.Name)] != nil, dmap(d), store(dmap(d), mvKey(m.Name), captured(m.Fset, got, r)))
@@ -166,6 +167,7 @@ package engine
 // structurally. The recursion descends into strictly smaller pattern trees.
 //@ func (c *matcherCompiler) compile(v) (m)
 //@   requires typing: compileEnvOK()
+//@   unfold compileEnvOK() == compileEnvFacts()
 //@   decreases 8 * rvSize(v) + 7
 //@   assigns c.dots, elems(c.dots)
 //@   ensures m != nil
@@ -383,6 +385,7 @@ package engine
 // additionally wrapped so that the region narrows to the node.
 //@ func (c *matcherCompiler) compileGeneric(v) (m)
 //@   requires typing: compileEnvOK()
+//@   unfold compileEnvOK() == compileEnvFacts()
 //@   decreases 8 * rvSize(v) + 5
 //@   assigns c.dots, elems(c.dots)
 //@   ensures m != nil
@@ -400,6 +403,7 @@ package engine
 
 //@ func (c *matcherCompiler) compilePtr(v) (m)
 //@   requires typing: compileEnvOK()
+//@   unfold compileEnvOK() == compileEnvFacts()
 //@   decreases 8 * rvSize(v) + 4
 //@   assigns c.dots, elems(c.dots)
 //@   ensures m != nil
@@ -409,6 +413,7 @@ package engine
 
 //@ func (c *matcherCompiler) compileInterface(v) (m)
 //@   requires typing: compileEnvOK()
+//@   unfold compileEnvOK() == compileEnvFacts()
 //@   decreases 8 * rvSize(v) + 4
 //@   assigns c.dots, elems(c.dots)
 //@   ensures m != nil
@@ -418,6 +423,7 @@ package engine
 
 //@ func (c *matcherCompiler) compileSlice(v) (m)
 //@   requires typing: compileEnvOK()
+//@   unfold compileEnvOK() == compileEnvFacts()
 //@   decreases 8 * rvSize(v) + 4
 //@   assigns c.dots, elems(c.dots)
 //@   ensures m != nil
@@ -432,6 +438,7 @@ package engine
 
 //@ func (c *matcherCompiler) compileStruct(v) (m)
 //@   requires typing: compileEnvOK()
+//@   unfold compileEnvOK() == compileEnvFacts()
 //@   decreases 8 * rvSize(v) + 4
 //@   assigns c.dots, elems(c.dots)
 //@   ensures m != nil
@@ -443,6 +450,20 @@ package engine
 //@     invariant forall j int {fields[j]} :: 0 <= j && j < i ==> fields[j] == cM(c.fset, c.meta, fld(v, j), c.patchStart, c.patchEnd)
 //@     decreases numfield(rtype(v)) - i
 
+// What counts as an elision (C04), per list kind: in a statement list an expression statement that is
+// `...`; in an expression list the `...` itself; in a field list a field whose type is `...`.
+//@ func (c *matcherCompiler) compile$1(n) (r)
+//@   requires typing: n.typ == dyn("*go/ast.ExprStmt") ==> n.val != nil
+//@   ensures [C04] statement-elision: r == (n.typ == dyn("*go/ast.ExprStmt") && as("*go/ast.ExprStmt", n.val).X.typ == dyn("*github.com/uber-go/gopatch/internal/pgo.Dots"))
+//@   assigns nothing
+//@ func (c *matcherCompiler) compile$2(n) (r)
+//@   ensures [C04] expression-elision: r == (n.typ == dyn("*github.com/uber-go/gopatch/internal/pgo.Dots"))
+//@   assigns nothing
+//@ func (c *matcherCompiler) compile$3(n) (r)
+//@   requires typing: n.typ == dyn("*go/ast.Field") ==> n.val != nil
+//@   ensures [C04] field-elision: r == (n.typ == dyn("*go/ast.Field") && as("*go/ast.Field", n.val).Type.typ == dyn("*github.com/uber-go/gopatch/internal/pgo.Dots"))
+//@   assigns nothing
+
 // The elision test handed to compileSliceDots (one per list kind).
 //@ func funcval:#isDots(n) (r)
 //@   ensures r == isDotsElem(self, n)
@@ -452,6 +473,7 @@ package engine
 // each elision closes a section. Without elisions the list is an ordinary list pattern.
 //@ func (c *matcherCompiler) compileSliceDots(items, isDots) (m)
 //@   requires typing: compileEnvOK()
+//@   unfold compileEnvOK() == compileEnvFacts()
 //@   requires typing: isDots != nil
 //@   decreases 8 * rvSize(items) + 6
 //@   assigns c.dots, elems(c.dots)
@@ -476,19 +498,23 @@ package engine
 // whose body matches; every other for statement is compiled structurally.
 //@ func (c *matcherCompiler) compileForStmt(v) (m)
 //@   requires typing: compileEnvOK()
+//@   unfold compileEnvOK() == compileEnvFacts()
 //@   requires typing: rvIface(v).typ == dyn("*go/ast.ForStmt") && rvIface(v).val != nil
 //@   requires typing: rvSize(rvOf(boxed(as("*go/ast.ForStmt", rvIface(v).val).Body))) < rvSize(v)
 //@   decreases 8 * rvSize(v) + 6
 //@   assigns c.dots, elems(c.dots)
 //@   ensures m != nil
 //@   ensures c.dots.arr == old(c.dots.arr) || fresh(c.dots.arr)
+//@   ensures [C04] for-elision-matcher-holds-the-compiled-body: as("*go/ast.ForStmt", rvIface(v).val).Cond.typ == dyn("*github.com/uber-go/gopatch/internal/pgo.Dots") && as("*go/ast.ForStmt", rvIface(v).val).Init == nil && as("*go/ast.ForStmt", rvIface(v).val).Post == nil ==> m == boxed(mk("github.com/uber-go/gopatch/internal/engine.ForDotsMatcher", nodePos(as("*go/ast.ForStmt", rvIface(v).val).Cond), cM(c.fset, c.meta, rvOf(boxed(as("*go/ast.ForStmt", rvIface(v).val).Body)), c.patchStart, c.patchEnd)))
 //@   at call (*engine.matcherCompiler).compileGeneric assert [C04] only-a-bare-elision-header-is-special: arg1 == v && (as("*go/ast.ForStmt", rvIface(v).val).Cond.typ != dyn("*github.com/uber-go/gopatch/internal/pgo.Dots") || as("*go/ast.ForStmt", rvIface(v).val).Init != nil || as("*go/ast.ForStmt", rvIface(v).val).Post != nil)
+//@   at call (*engine.matcherCompiler).compile assert [C04] the-for-elision-needs-a-bare-elision-header: as("*go/ast.ForStmt", rvIface(v).val).Cond.typ == dyn("*github.com/uber-go/gopatch/internal/pgo.Dots") && as("*go/ast.ForStmt", rvIface(v).val).Init == nil && as("*go/ast.ForStmt", rvIface(v).val).Post == nil
 //@   at call (*engine.matcherCompiler).compile assert [C04] the-body-is-compiled: arg1 == rvOf(boxed(as("*go/ast.ForStmt", rvIface(v).val).Body))
 
 // An identifier of the '-' pattern: a declared metavariable becomes a MetavarMatcher of its kind (C02),
 // anything else (including an absent identifier) is matched as ordinary code.
 //@ func (c *matcherCompiler) compileIdent(v) (m)
 //@   requires typing: compileEnvOK()
+//@   unfold compileEnvOK() == compileEnvFacts()
 //@   requires typing: rvIface(v).typ == dyn("*go/ast.Ident")
 //@   decreases 8 * rvSize(v) + 6
 //@   assigns c.dots, elems(c.dots)
